@@ -1,7 +1,8 @@
 (** Correspondence evaluator for C18.
     kind 0: dates      (0 s1 s2 out1 out2 inst1 inst2)
     kind 1: bootstrap  (1 nu de conf N seed stream pub ratios hooksum again)
-    kind 2: series     (2 results (wa wb wc wd) runs)                          *)
+    kind 2: series     (2 results (wa wb wc wd) runs)
+    kind 3: several cells, one AddSummaries call (3 conf N cells)                          *)
 From Perf Require Import Base.Bytes Base.Sx Base.B64 Base.SxF Base.Usort
      Model.Dates Model.Bootstrap Model.Series.
 Local Open Scope Z_scope.
@@ -96,6 +97,39 @@ Definition boot_prop (nu de : list Z) (pub : outcome3) (again : bool) : bool :=
           else true)
   | _ => false
   end.
+
+(** * several cells summarised by one AddSummaries call
+    (3 conf N ((nu de seed stream multi alone) ...)) *)
+Record mcell := mkM { m_nu : list Z; m_de : list Z; m_seed : Z; m_stream : list Z; m_multi : outcome3; m_alone : outcome3 }.
+
+Definition as_mcell (s : sx) : option mcell :=
+  match s with
+  | SL [nu; de; SZ seed; stream; multi; alone] =>
+      do nu <- as_list as_z nu; do de <- as_list as_z de; do stream <- as_list as_z stream;
+      do multi <- as_out3 multi; do alone <- as_out3 alone;
+      Some (mkM nu de seed stream multi alone)
+  | _ => None
+  end.
+
+Definition out3_same (a b : outcome3) : bool :=
+  match a, b with
+  | O3ok c l h, O3ok c' l' h' => b64_same c c' && b64_same l l' && b64_same h h'
+  | O3undef, O3undef => true
+  | _, _ => false
+  end.
+
+Definition mcell_corr (conf : b64) (n : nat) (c : mcell) : bool :=
+  let snu := vsort (m_nu c) in
+  let sde := vsort (m_de c) in
+  Z.eqb (bootstrap_seed snu sde) (m_seed c)
+  && match ratio (map b64_of_bits snu) (map b64_of_bits sde) conf n (m_stream c) with
+     | Some (_, summ) => out3_matches summ (m_multi c)
+     | None => false
+     end.
+
+(** each cell's summary is what its samples give when summarised alone, and is sane *)
+Definition mcell_prop (c : mcell) : bool :=
+  out3_same (m_multi c) (m_alone c) && boot_prop (m_nu c) (m_de c) (m_multi c) true.
 
 (** * series *)
 Definition as_role (s : sx) : option role :=
@@ -278,6 +312,12 @@ Definition run_case (s : sx) : N :=
           code_of (boot_corr nu de (b64_of_bits conf) n seed stream pub ratios hook)
                   (boot_prop nu de pub again)
       | _, _, _, _, _, _, _, _ => code_undecodable
+      end
+  | SL [SZ 3; SZ conf; n; cells] =>
+      match as_nat n, as_list as_mcell cells with
+      | Some n, Some cells =>
+          code_of (forallb (mcell_corr (b64_of_bits conf) n) cells) (forallb mcell_prop cells)
+      | _, _ => code_undecodable
       end
   | SL [SZ 2; rs; flags; runs] =>
       match as_list as_res rs, as_list as_bool flags, as_list as_run runs with
